@@ -527,6 +527,24 @@ class GuardMgr(object):
             gs = nxt
         return self.find(gs[0])
 
+    def validate_tags(self, start=0):
+        """debug aid: every exact tag must agree with the simulation signatures"""
+        bad = []
+        for n in self.nodes[start:]:
+            if n.tags and n.rep is None:
+                for pid, (sx, ex) in n.tags.items():
+                    blocks = self.part_blocks.get(pid)
+                    if not blocks:
+                        continue
+                    cov = 0
+                    for i in sx:
+                        cov |= self.find(blocks[i]).sig
+                    if ex and cov != n.sig:
+                        bad.append((n.id, n.kind, pid, sorted(sx)[:6], "exact"))
+                    elif not ex and (n.sig & ~cov):
+                        bad.append((n.id, n.kind, pid, sorted(sx)[:6], "upper-bound"))
+        return bad
+
     def _evict(self, tags, keep):
         """drop the least useful tags: inexact ones first (oldest first), then oldest exact"""
         order = sorted(tags, key=lambda p: (tags[p][1], p))
@@ -569,24 +587,19 @@ class GuardMgr(object):
         gs = [g for g in gs if g.kind != "const"]
         if len(gs) < 2:
             return
-        # already distinct blocks of one known partition?  then nothing new is learnt
+        # already exact block sets of one known partition?  then nothing new is learnt (their
+        # exclusivity and complements are already decided by that partition's algebra)
         t0 = gs[0].tags
         if t0:
             for pid, (s0, e0) in t0.items():
-                if not e0 or len(s0) != 1:
+                if not e0:
                     continue
-                seen = set()
                 ok = True
                 for g in gs:
                     x = g.tags.get(pid) if g.tags else None
-                    if x is None or not x[1] or len(x[0]) != 1:
+                    if x is None or not x[1]:
                         ok = False
                         break
-                    (i,) = x[0]
-                    if i in seen:
-                        ok = False
-                        break
-                    seen.add(i)
                 if ok:
                     return
         self._pid += 1
